@@ -9,6 +9,8 @@ use tuikit::attr::{Attr, Color};
 type Fr = (u32, (u32, u32)); // attribute id, range
 
 fn attr(id: u32) -> Attr {
+    // id 0 stands for the default attribute (a theme whose highlight changes nothing)
+    if id == 0 { return Attr::default(); }
     Attr { fg: Color::AnsiValue(id as u8), ..Attr::default() }
 }
 fn id_of(a: &Attr) -> Option<u32> {
@@ -77,7 +79,7 @@ fn run_impl(old: &[Fr], new: &[Fr], n: u32) -> Result<Run, String> {
 fn oracle(old: &[Fr], new: &[Fr], n: u32, run: &Run) -> Option<String> {
     if !wf(&run.merged) { return Some(format!("result ranges not ordered / overlapping: {:?}", run.merged)); }
     for k in 0..n {
-        let want = lookup(new, k).or_else(|| lookup(old, k));
+        let want = lookup(new, k).or_else(|| lookup(old, k)).filter(|x| *x != 0);
         let got = run.attrs.get(k as usize).cloned().flatten();
         // AnsiString::new_str drops a single default-attribute fragment; ids here are never default
         if got != want { return Some(format!("character {}: attribute {:?}, expected {:?} (highlight {:?}, colour {:?}); merged = {:?}", k, got, want, lookup(new, k), lookup(old, k), run.merged)); }
@@ -111,6 +113,22 @@ fn main() {
                     Err(e) => { if fails.len() < 20 { fails.push(OracleFailure { case: 1_000_000 + evaluations, what: format!("panic: {}", e), known: None, input: format!("old={:?} new={:?} n={}", o, nw, exh_n) }); } }
                     Ok(run) => if let Some(m) = oracle(o, nw, exh_n, &run) {
                         if fails.len() < 20 { fails.push(OracleFailure { case: 1_000_000 + evaluations, what: m, known: None, input: format!("old={:?} new={:?} n={}", o, nw, exh_n) }); }
+                    }
+                }
+            }
+        }
+        // the highlight attribute equal to the default attribute: one and two ranges
+        let news0 = enumerate(exh_n, 2, 0);
+        for o in &olds {
+            for nw in &news0 {
+                if nw.is_empty() { continue; }
+                // ids: first range 0 (default), second range 1 would collide with the colours: use 0 for both
+                let nw0: Vec<Fr> = nw.iter().map(|(_, r)| (0u32, *r)).collect();
+                evaluations += 1;
+                match run_impl(o, &nw0, exh_n) {
+                    Err(e) => { if fails.len() < 20 { fails.push(OracleFailure { case: 2_000_000 + evaluations, what: format!("panic: {}", e), known: None, input: format!("old={:?} new(default attribute)={:?} n={}", o, nw0, exh_n) }); } }
+                    Ok(run) => if let Some(m) = oracle(o, &nw0, exh_n, &run) {
+                        if fails.len() < 20 { fails.push(OracleFailure { case: 2_000_000 + evaluations, what: m, known: None, input: format!("old={:?} new(default attribute)={:?} n={}", o, nw0, exh_n) }); }
                     }
                 }
             }
